@@ -49,6 +49,8 @@ def variant(op):
         return "+".join(str(x) if isinstance(x, str) else "->".join(x) for x in op[1])
     if k in ("solver", "direction", "rule", "gpr", "set_reaction"):
         return str(op[-1])
+    if k == "set_id" and " " in op[3]:
+        return "refused"
     return ""
 
 
